@@ -69,6 +69,15 @@ def run_case(case):
                 msgs.append("evaluate: no TypeValidationRequest observed for Option('A', type=int)")
             if op == "evaluate" and got[0] == "ok" and "LogRequest" not in seen:
                 msgs.append("evaluate: no LogRequest observed")
+    # an Option whose value comes from its default is type-checked through a request as well
+    del seen[:]
+    with rt.handle(handlers):
+        try:
+            Option("ZZ.Y", 5, type=int)(dict(o))
+        except Exception:  # noqa
+            pass
+    if "TypeValidationRequest" not in seen:
+        msgs.append("Option('ZZ.Y', 5, type=int) evaluated from its default: no TypeValidationRequest observed")
     return msgs
 
 
